@@ -28,3 +28,22 @@ pub fn vx_max_i64(a: i64, b: i64) -> (r: i64)
 {
     if a >= b { a } else { b }
 }
+
+// R4: Vec::resize(len, value) for Copy element types, growing case (verified replacement; vstd's spec goes through Clone)
+pub fn vx_resize<V: Copy>(v: &mut Vec<V>, len: usize, value: V)
+    requires len >= old(v)@.len(),
+    ensures
+        final(v)@.len() == len,
+        forall|i: int| 0 <= i < old(v)@.len() ==> final(v)@[i] == old(v)@[i],
+        forall|i: int| old(v)@.len() <= i < len ==> final(v)@[i] == value,
+{
+    while v.len() < len
+        invariant
+            old(v)@.len() <= v@.len() <= len,
+            forall|i: int| 0 <= i < old(v)@.len() ==> v@[i] == old(v)@[i],
+            forall|i: int| old(v)@.len() <= i < v@.len() ==> v@[i] == value,
+        decreases len - v.len(),
+    {
+        v.push(value);
+    }
+}
